@@ -492,7 +492,7 @@ def purge(node: dawgie.pl.dag.Node, target: str):
     if target in node.get('todo', []):
         node.get('todo').remove(target)
 
-    for child in node:
+    for child in filter(lambda c, n=node.tag: c.tag != n, node):
         purge(child, target)
     return
 
